@@ -13,6 +13,17 @@ def handle (c obs : String) : String × Bool × String :=
   match parseCase c with
   | none => ("bad-case", false, "unparsable case")
   | some (p, rs) =>
+    if isAsync c then
+      -- asynchronous stages: event order across goroutines is schedule dependent, so nothing is compared with
+      -- the sequential model; the property itself is evaluated on the observation (after quiescence)
+      match parseObs obs with
+      | some os =>
+        -- C01 is about Open/Close only; an Emit that overlaps a Close belongs to C02 (known finding D5)
+        let oc := fun (o : ObsRun) => { o with events := o.events.map (fun e => (e.1, String.ofList (e.2.toList.filter (· != 'E')))) }
+        let bad := os.filter (fun o => !(obsBalanced (oc o) && o.pre == 0 && o.leak == 0))
+        (obs, bad.isEmpty, if bad.isEmpty then "" else "async: unbalanced open/close after quiescence, or goroutines left")
+      | none => (obs, false, "unparsable observation")
+    else
     let model := agreeOr { result := false, delivered := false, events := fun c => c == 'O' || c == 'o' || c == 'C' } (modelText p rs) obs
     match parseObs obs with
     | some os =>
